@@ -1997,6 +1997,21 @@ M('C03', 'pkesk-wire-keyid-truncated', PK, "        _bytes += binascii.unhexlify
 T('C03', 'twin-pkesk-wire-single-expression', PK, "        _bytes = bytearray()\n        _bytes += super(PKESessionKeyV3, self).__bytearray__()\n        _bytes += binascii.unhexlify(self.encrypter.encode())\n        _bytes += bytearray([self.pkalg])\n        _bytes += self.ct.__bytearray__() if self.ct is not None else b'\\x00' * (self.header.length - 10)\n        return _bytes",
   "        keyid = binascii.a2b_hex(self.encrypter.encode('ascii'))\n        body = self.ct.__bytearray__() if self.ct is not None else bytes(self.header.length - 10)\n        return b''.join([super(PKESessionKeyV3, self).__bytearray__(), keyid, bytes([self.pkalg]), body])")
 
+# ---- one curve test, two consecutive if/else blocks driven by the same local flag (held-out twin C13-ref8)
+ECDH_ARMS = ("        if km.oid == EllipticCurveOID.Curve25519:\n            v = x25519.X25519PrivateKey.generate()\n            x = v.public_key().public_bytes(encoding=serialization.Encoding.Raw, format=serialization.PublicFormat.Raw)\n"
+             "            ct.p = ECPoint.from_values(km.oid.key_size, ECPointFormat.Native, x)\n            s = v.exchange(km.__pubkey__())\n        else:\n"
+             "            v = ec.generate_private_key(km.oid.curve(), default_backend())\n            x = MPI(v.public_key().public_numbers().x)\n            y = MPI(v.public_key().public_numbers().y)\n"
+             "            ct.p = ECPoint.from_values(km.oid.key_size, ECPointFormat.Standard, x, y)\n            s = v.exchange(ec.ECDH(), km.__pubkey__())\n")
+ECDH_SPLIT = ("        native = EllipticCurveOID.Curve25519 == km.oid\n        if not native:\n            v = ec.generate_private_key(km.oid.curve(), default_backend())\n        else:\n            v = x25519.X25519PrivateKey.generate()\n"
+              "        vpub = v.public_key()\n\n        if %s:\n            vnum = vpub.public_numbers()\n            ct.p = ECPoint.from_values(km.oid.key_size, ECPointFormat.Standard, MPI(vnum.x), MPI(vnum.y))\n"
+              "            s = v.exchange(ec.ECDH(), km.__pubkey__())\n        else:\n            x = vpub.public_bytes(format=serialization.PublicFormat.Raw, encoding=serialization.Encoding.Raw)\n"
+              "            ct.p = ECPoint.from_values(km.oid.key_size, ECPointFormat.Native, x)\n            s = v.exchange(km.__pubkey__())\n")
+T('C03', 'twin-ecdh-two-blocks-one-flag', FL, ECDH_ARMS, ECDH_SPLIT % 'not native')
+T('C13', 'twin-ecdh-two-blocks-one-flag', FL, ECDH_ARMS, ECDH_SPLIT % 'not native')
+M('C03', 'ecdh-two-blocks-second-inverted', FL, ECDH_ARMS, ECDH_SPLIT % 'native', 'C03.5')
+M('C13', 'ecdh-two-blocks-second-draws-again', FL, ECDH_ARMS, (ECDH_SPLIT % 'not native').replace("            x = vpub.public_bytes(", "            v = x25519.X25519PrivateKey.generate()\n            x = vpub.public_bytes("), 'C13.2')
+M('C03', 'ecdh-two-blocks-second-on-other-test', FL, ECDH_ARMS, ECDH_SPLIT % 'km.oid.key_size > 256', 'C03.5')
+
 # =============================================================================================== C02
 M('C02', 'hash2-last-two', PGP, "        sig._signature.hash2 = bytearray(h2.digest()[:2])", "        sig._signature.hash2 = bytearray(h2.digest()[-2:])", 'C02.2')
 M('C02', 'signer-hashdata-none', PGP, "        _sig = self._key.sign(sigdata, getattr(hashes, sig.hash_algorithm.name)())", "        _sig = self._key.sign(sig.hashdata(None), getattr(hashes, sig.hash_algorithm.name)())", 'C02.2')
